@@ -16,7 +16,7 @@ class Target:
     """
 
     def __init__(self, d, kinds, a, b, centre, width, mode="vector", zero_below=None, zero_coord=0, shift=0.0,
-                 mix=None):
+                 mix=None, lkind=None):
         self.d = int(d)
         self.kinds = list(kinds)
         self.a = [float(v) for v in a]
@@ -28,6 +28,7 @@ class Target:
         self.zero_coord = int(zero_coord)
         self.shift = float(shift)
         self.mix = mix  # optional second mode: dict(centre=[..], logamp=float)
+        self.lkind = list(lkind) if lkind else ["gauss"] * self.d  # 'gauss' | 'vm' (von Mises in x, kappa = width)
         self.n_points = 0
         self.n_calls = 0
         self.n_finite = 0
@@ -48,16 +49,20 @@ class Target:
         return x
 
     # ---- pure (uncounted) reference evaluation of one row
+    def _term(self, xj, cj, j):
+        if self.lkind[j] == "vm":
+            return self.width[j] * (math.cos(2.0 * math.pi * (xj - cj)) - 1.0)
+        t = (xj - cj) / self.width[j]
+        return -0.5 * t * t
+
     def ll_row(self, x):
         acc = 0.0
         for j in range(self.d):
-            t = (float(x[j]) - self.centre[j]) / self.width[j]
-            acc = acc + (-0.5 * t * t)
+            acc = acc + self._term(float(x[j]), self.centre[j], j)
         if self.mix is not None:
             acc2 = 0.0
             for j in range(self.d):
-                t = (float(x[j]) - self.mix["centre"][j]) / self.width[j]
-                acc2 = acc2 + (-0.5 * t * t)
+                acc2 = acc2 + self._term(float(x[j]), self.mix["centre"][j], j)
             acc2 = acc2 + self.mix["logamp"]
             m = acc if acc >= acc2 else acc2
             acc = m + math.log(math.exp(acc - m) + math.exp(acc2 - m))
@@ -110,12 +115,12 @@ class Target:
     def spec(self):
         return {"d": self.d, "kinds": self.kinds, "a": self.a, "b": self.b, "centre": self.centre, "width": self.width,
                 "mode": self.mode, "zero_below": self.zero_below, "zero_coord": self.zero_coord, "shift": self.shift,
-                "mix": self.mix}
+                "mix": self.mix, "lkind": self.lkind}
 
     @classmethod
     def from_spec(cls, s):
         return cls(s["d"], s["kinds"], s["a"], s["b"], s["centre"], s["width"], s.get("mode", "vector"),
-                   s.get("zero_below"), s.get("zero_coord", 0), s.get("shift", 0.0), s.get("mix"))
+                   s.get("zero_below"), s.get("zero_coord", 0), s.get("shift", 0.0), s.get("mix"), s.get("lkind"))
 
 
 class PermutingPool:
